@@ -8,7 +8,16 @@
    [get up attr cs j] are the getters get_actual_column_width / is_column_hidden /
    get_column_style.  [down]/[up] are the f64 operations w / COLUMN_WIDTH_FACTOR and
    x * COLUMN_WIDTH_FACTOR; the only fact used is the premise [forall w, up (down w) = w].
-   [defect_cop] is the (tight) class of steps on which the code breaks the property (F23). *)
+
+   The full statements are the definitions
+     cols_frame_statement    := forall cs o j' attr', wf cs -> (cop_col o, cop_attr o) <> (j', attr') ->
+                                get up attr' (step_cop down up cs o) j' = get up attr' cs j'
+     cols_readback_statement := forall cs o cs', wf cs -> apply_cop down up cs o = Ok cs' ->
+                                get up (cop_attr o) cs' (cop_col o) = cop_val o
+     cols_history_statement  := forall cs os, wf cs ->
+                                agrees up (run_cops down up cs os) (fold_left abs_step os (abs_of (width_at up) cs))
+   in Sheet/Cols.v.  They were refuted for the code before the repair of F23a/b/c (acf9a86,
+   ae7cffd, 973383c); the model follows the repaired code and they are now proved. *)
 From IronCalc Require Import Base.Prelude Sheet.Cols Sheet.ColsProofs Sheet.Rows Sheet.RowsProofs.
 
 (* ---- columns: well-formedness is an invariant (reused by C27) -------------------------------- *)
@@ -30,110 +39,72 @@ Theorem C29_cols_other_columns :
 Proof. exact cols_other_columns_get. Qed.
 Print Assumptions C29_cols_other_columns.
 
-(* ---- columns: the property at full strength is FALSE of the code ------------------------------- *)
-Theorem C29_cols_frame_refuted : ~ cols_frame_statement idz idz.
-Proof. exact cols_frame_statement_refuted. Qed.
-Print Assumptions C29_cols_frame_refuted.
-
-Theorem C29_cols_readback_refuted : ~ cols_readback_statement idz idz.
-Proof. exact cols_readback_statement_refuted. Qed.
-Print Assumptions C29_cols_readback_refuted.
-
-(* the three witnesses (replayed on the implementation by the harness oracle) *)
-Theorem C29_refuted_style_in_range :
-  exists cs j s cs', wf cs /\ set_column_style idz idz cs j s = Ok cs' /\
-                     style_at cs' j <> Some s /\ defect_cop idz cs (SetStyle j s) = true.
-Proof. exact style_in_range_refuted. Qed.
-Print Assumptions C29_refuted_style_in_range.
-
-Theorem C29_refuted_hidden_width :
-  exists cs j s cs' cs'', wf cs /\ set_column_style idz idz cs j s = Ok cs' /\
-    set_column_hidden idz idz cs' j false = Ok cs'' /\
-    width_at idz cs j = 45 /\ width_at idz cs' j = 0 /\ width_at idz cs'' j = 0 /\
-    defect_cop idz cs (SetStyle j s) = true.
-Proof. exact hidden_width_refuted. Qed.
-Print Assumptions C29_refuted_hidden_width.
-
-Theorem C29_refuted_delete_unhides :
-  exists cs j cs', wf cs /\ delete_column_style cs j = Ok cs' /\
-    hidden_at cs j = true /\ hidden_at cs' j = false /\ defect_cop idz cs (DelStyle j) = true.
-Proof. exact delete_unhides_refuted. Qed.
-Print Assumptions C29_refuted_delete_unhides.
-
-(* ---- columns: the property outside the defect class --------------------------------------------- *)
+(* ---- columns: the property at full strength ------------------------------------------------------ *)
 (* FRAME: every other (column, attribute) pair keeps its value, also when the call is refused *)
-Theorem C29_cols_frame_partial :
-  forall down up, (forall w, up (down w) = w) ->
-  forall cs o j' attr',
-  wf cs -> defect_cop up cs o = false -> (cop_col o, cop_attr o) <> (j', attr') ->
-  get up attr' (step_cop down up cs o) j' = get up attr' cs j'.
+Theorem C29_cols_frame :
+  forall down up, (forall w, up (down w) = w) -> cols_frame_statement down up.
 Proof. exact cols_frame. Qed.
-Print Assumptions C29_cols_frame_partial.
+Print Assumptions C29_cols_frame.
 
 (* READ-BACK: the pair that was set has the value that was set *)
-Theorem C29_cols_readback_partial :
-  forall down up, (forall w, up (down w) = w) ->
-  forall cs o cs',
-  wf cs -> defect_cop up cs o = false -> apply_cop down up cs o = Ok cs' ->
-  get up (cop_attr o) cs' (cop_col o) = cop_val o.
+Theorem C29_cols_readback :
+  forall down up, (forall w, up (down w) = w) -> cols_readback_statement down up.
 Proof. exact cols_readback. Qed.
-Print Assumptions C29_cols_readback_partial.
+Print Assumptions C29_cols_readback.
 
-(* width and hidden operations satisfy FRAME on every well-formed layout *)
-Theorem C29_width_hidden_frame :
+(* HISTORIES: after any sequence of operations the getters read three independent total maps
+   updated pointwise *)
+Theorem C29_cols_history :
+  forall down up, (forall w, up (down w) = w) -> cols_history_statement down up.
+Proof. exact cols_history. Qed.
+Print Assumptions C29_cols_history.
+
+(* the same, spelled out *)
+Theorem C29_cols_frame_explicit :
   forall down up, (forall w, up (down w) = w) ->
   forall cs o j' attr',
-  wf cs -> (match o with SetWidth _ _ | SetHidden _ _ => True | _ => False end) ->
-  (cop_col o, cop_attr o) <> (j', attr') ->
+  wf cs -> (cop_col o, cop_attr o) <> (j', attr') ->
   get up attr' (step_cop down up cs o) j' = get up attr' cs j'.
-Proof. exact cols_frame_width_hidden. Qed.
-Print Assumptions C29_width_hidden_frame.
+Proof. exact cols_frame. Qed.
+Print Assumptions C29_cols_frame_explicit.
 
-(* HISTORIES: after any sequence of operations none of which falls in the defect class, the
-   getters read three independent total maps updated pointwise *)
-Theorem C29_cols_history_partial :
+(* what set_column_style and delete_column_style do to the column itself *)
+Theorem C29_set_style_same_column :
   forall down up, (forall w, up (down w) = w) ->
-  forall cs os,
-  wf cs -> clean_run down up cs os = true ->
-  agrees up (run_cops down up cs os) (fold_left abs_step os (abs_of (width_at up) cs)).
-Proof. exact cols_history. Qed.
-Print Assumptions C29_cols_history_partial.
-
-(* the class is tight: every step inside it breaks the point-update reading *)
-Theorem C29_cols_defect_class_tight :
-  forall down up, (forall w, up (down w) = w) ->
-  forall cs o,
-  wf cs -> defect_cop up cs o = true ->
-  ~ agrees up (step_cop down up cs o) (abs_step (abs_of (width_at up) cs) o).
-Proof. exact defect_is_real. Qed.
-Print Assumptions C29_cols_defect_class_tight.
-
-(* what set_column_style and delete_column_style do to the column itself, as the code is *)
-Theorem C29_set_style_as_is :
-  forall down up, (forall w, up (down w) = w) ->
-  forall cs j s cs', wf cs -> set_column_style down up cs j s = Ok cs' ->
-  hidden_at cs' j = hidden_at cs j /\
-  style_at cs' j = (if spans cs j then style_at cs j else Some s) /\
-  width_at up cs' j = (if hidden_at cs j then 0 else width_at up cs j).
+  forall cs j s cs', set_column_style down up cs j s = Ok cs' ->
+  style_at cs' j = Some s /\ width_at up cs' j = width_at up cs j /\ hidden_at cs' j = hidden_at cs j.
 Proof. exact set_style_same. Qed.
-Print Assumptions C29_set_style_as_is.
+Print Assumptions C29_set_style_same_column.
 
-Theorem C29_delete_style_as_is :
+Theorem C29_delete_style_same_column :
   forall up cs j cs', wf cs -> delete_column_style cs j = Ok cs' ->
-  style_at cs' j = None /\ width_at up cs' j = width_at up cs j /\ hidden_at cs' j = false.
+  style_at cs' j = None /\ width_at up cs' j = width_at up cs j /\ hidden_at cs' j = hidden_at cs j.
 Proof. exact del_style_same. Qed.
-Print Assumptions C29_delete_style_as_is.
+Print Assumptions C29_delete_style_same_column.
 
-(* non-vacuity: a clean history over a layout with a 4-column descriptor and one at 16384 *)
+(* the former witnesses of F23a/b/c, as regression examples on the model *)
+Example C29_former_witnesses_pass :
+  (exists cs', set_column_style idz idz [mkCol 2 5 5 true false None] 3 7 = Ok cs' /\
+               style_at cs' 3 = Some 7 /\ style_at cs' 2 = None /\ style_at cs' 4 = None) /\
+  (exists cs', set_column_style idz idz [mkCol 3 3 45 true true None] 3 7 = Ok cs' /\
+               width_at idz cs' 3 = 45 /\ hidden_at cs' 3 = true) /\
+  (exists cs', delete_column_style [mkCol 3 3 45 true true (Some 7)] 3 = Ok cs' /\
+               hidden_at cs' 3 = true /\ style_at cs' 3 = None) /\
+  (exists cs', delete_column_style [mkCol 2 4 5 false true (Some 7)] 3 = Ok cs' /\
+               hidden_at cs' 3 = true /\ style_at cs' 3 = None /\ style_at cs' 2 = Some 7).
+Proof. exact former_witnesses_pass. Qed.
+
+(* non-vacuity: a history over a layout with a 4-column descriptor and one at 16384 *)
 Example C29_nonvacuous :
   let cs := [mkCol 2 5 5 true false (Some 1); mkCol 16384 16384 20 true true None] in
-  let os := [SetWidth 3 45; SetHidden 4 true; SetStyle 9 2; DelStyle 3; SetHidden 16384 false; SetStyle 3 1] in
-  wf_b cs = true /\ clean_run idz idz cs os = true /\
+  let os := [SetWidth 3 45; SetHidden 4 true; SetStyle 9 2; DelStyle 3; SetHidden 16384 false; SetStyle 3 1;
+             SetStyle 4 2; DelStyle 4] in
+  wf_b cs = true /\
   run_cops idz idz cs os =
-    [mkCol 2 2 5 true false (Some 1); mkCol 3 3 45 true false (Some 1); mkCol 4 4 5 true true (Some 1);
+    [mkCol 2 2 5 true false (Some 1); mkCol 3 3 45 true false (Some 1); mkCol 4 4 5 true true None;
      mkCol 5 5 5 true false (Some 1); mkCol 9 9 90 false false (Some 2);
      mkCol 16384 16384 20 true false None].
-Proof. exact clean_history_example. Qed.
+Proof. exact history_example. Qed.
 
 (* ---- rows: the property holds at full strength (any vector of records, any history) ----------- *)
 Theorem C29_rows_frame :
@@ -160,7 +131,7 @@ Print Assumptions C29_rows_history.
 
 (* Model::get_row_style (Some as soon as a record exists) is the one row getter that is not a
    function of the three maps: it changes, without a style operation, exactly when the step
-   creates the record *)
+   creates the record (F23d, not repaired) *)
 Theorem C29_get_row_style_partial :
   forall down rs o r',
   (match o with SetRowStyle r _ | DelRowStyle r => r <> r' | _ => True end) ->
